@@ -7,15 +7,24 @@ PROP = {'drive': ['Otl'], 'modules': ['SfntV.Props.C08'],
                        'C08_st_len_gsub1_2', 'C08_st_roundtrip_gsub2_1_3_1', 'C08_st_len_gsub2_1_3_1', 'C08_st_roundtrip_gsub4_1',
                        'C08_lookuplist_layout', 'C08_valuerecord_roundtrip', 'C08_st_roundtrip_gpos1_1',
                        'C08_st_roundtrip_gpos1_2', 'C08_gpos1_2_normal_form', 'C08_st_roundtrip_gpos2_1',
-                       'C08_featurelist_roundtrip', 'C08_gdef_roundtrip'],
+                       'C08_featurelist_roundtrip', 'C08_gdef_roundtrip', 'C08_gtab_roundtrip',
+                       'C08_gtab_nil_normal_form'],
  'areas': [('otl', 900, 12000)],
  'rule': 'distinct case lines; non-trivial = coverage/class tables with at least two glyphs/runs, every '
          'subtable, every lookup-list and every mutated-bytes case',
  'partial': ['codecs proved: GSUB 1.1, 1.2, 2.1, 3.1, 4.1, GPOS value records, GPOS 1.1, 1.2, 2.1, feature list, GDEF',
              'not modelled yet: GSUB 8.1, GPOS 2.2/3.1/4.1/5.1/6.1, (chained) context lookups, '
-             'anchors, mark arrays, script list (needs the BCP47<->OpenType tag tables and x/text '
-             'canonicalisation as oracles) and the GSUB/GPOS header (Info.Encode); the '
-             'theorems scriptlist/gtab_roundtrip of DESIGN section 8 are therefore open',
+             'anchors, mark arrays',
+             'script list: ScriptListInfo.encode / readScriptList are modelled on the OpenType side of the tag '
+             'conversion (bcp47ToOtf/otfToBCP47 mutually inverse on the library tables is property C14, an '
+             'assumption here; the accepted tag sets are regenerated from locale.go) and tied by byte-exact '
+             'encode / value-exact decode correspondence incl. the 16-bit boundaries and mutated bytes '
+             '(streams otl.sl.*); scriptlist_roundtrip is not proved yet',
+             'GSUB/GPOS table: C08_gtab_roundtrip proves header + feature list + lookup list for any script-list '
+             'bytes; the whole decoder gtab.Read (header, script list, feature list, lookup list with the real '
+             'GSUB reader for lookup types 1-4) is additionally tied by value-exact correspondence (otl.gtab.read). '
+             'Normal form: a nil ScriptList/FeatureList/LookupList is written and read back as the empty list '
+             '(C08_gtab_nil_normal_form, repair 10)',
              'readLookupList (the Go reader of lookup lists, with its 6000-entry budget and its two-pass '
              'extension resolution) is modelled and tied by value-exact correspondence on encoder output, '
              'hand-built extension lookups and mutated bytes (stream otl.ll.read), but no theorem is stated '
